@@ -55,8 +55,11 @@ case "${1:-}" in
     tier=quick
     case "$prop" in
       C14) VERIF_REPLAY="$(realpath "$2")" overlay_test c14 client TestVerifC14;;
-      C02|C07|C08|C13|C20) build_b
+      C02|C07|C08|C13) build_b
          VERIF_EXEC_ONE="$(jq -r .violation.part "$2")|$(jq -c .violation.choices "$2")" exec bin/verifb.test -test.run "^Test$prop\$" -test.timeout 0;;
+      C20) python3 gen_gated.py || exit 3
+         (cd h && go1.26.8 test -c -vet=off -overlay ../bin/ov_gate.json -o ../bin/verifb_gated.test ./tb) || exit 3
+         VERIF_EXEC_ONE="$(jq -r .violation.part "$2")|$(jq -c .violation.choices "$2")" exec bin/verifb_gated.test -test.run '^TestC20$' -test.timeout 0;;
       C04) build_s; (cd h && go build -o ../bin/c04writer ./cmd/c04writer) || exit 3; exec bin/verifs replay "$2";;
       *) build_s; exec bin/verifs replay "$2";;
     esac;;
@@ -66,9 +69,15 @@ id="$1"; tier="${2:-quick}"
 case "$id" in
   C14)
     overlay_test c14 client TestVerifC14;;
-  C02|C07|C08|C13|C20)
+  C02|C07|C08|C13)
     build_b
     run_b "$id";;
+  C20)
+    # store/sqlite.go with its database/sql and sync imports rewritten to gated wrappers (virtual file, /repo untouched)
+    python3 gen_gated.py || exit 3
+    cp /repo/go.sum h/go.sum 2>/dev/null
+    (cd h && go1.26.8 test -c -vet=off -overlay ../bin/ov_gate.json -o ../bin/verifb_gated.test ./tb) || { echo "HARNESS-ERROR: gated tier-B build failed"; exit 3; }
+    VERIF_TIER="$tier" exec bin/verifb_gated.test -test.run '^TestC20$' -test.timeout 0;;
   C04)
     build_s
     (cd h && go build -o ../bin/c04writer ./cmd/c04writer) || { echo "HARNESS-ERROR: c04writer build failed"; exit 3; }
